@@ -330,12 +330,22 @@ func (c *VirtualTable) Delete(value sqlite.Value) error {
 }
 
 func (c *VirtualTable) Begin() error {
+	fixedHere := false
 	if c.module.sc.writeTime.IsZero() {
 		c.module.sc.writeTime = time.Now()
 		c.module.sc.txFixedWriteTime = true
 		c.module.sc.ResetContext()
+		fixedHere = true
 	}
-	return toSqlite(c.common.Begin(c.module.sc.ctx))
+	err := c.common.Begin(c.module.sc.ctx)
+	if err != nil && fixedHere {
+		// SQLite ends no transaction on a table whose xBegin failed: the time would
+		// stay fixed, and stamp the connection's later statements
+		c.module.sc.writeTime = time.Time{}
+		c.module.sc.txFixedWriteTime = false
+		c.module.sc.ResetContext()
+	}
+	return toSqlite(err)
 }
 
 func (c *VirtualTable) Commit() error {
@@ -349,6 +359,8 @@ func (c *VirtualTable) Commit() error {
 
 func (c *VirtualTable) Sync() error {
 	if c.common.S3Options.ReadOnly {
+		// nothing was written and nothing is stored, but the transaction is over
+		c.common.EndReadOnly()
 		return nil
 	}
 
